@@ -192,7 +192,8 @@ def run_delim(ctx, rng):
 #                                         table readers
 # =====================================================================================================
 class Outcome:
-    def __init__(self, kind, aspect="", what=""): self.kind = kind; self.aspect = aspect; self.what = what
+    def __init__(self, kind, aspect="", what="", got=None, exp=None):
+        self.kind = kind; self.aspect = aspect; self.what = what; self.got = got; self.exp = exp
 
 
 def cell_ok(exp, got, sparse):
@@ -236,7 +237,7 @@ def read_arff(lines, attrs, rows, sparse, ArffReader):
                 if hdr != names: return Outcome("misread", "names", "column names %r instead of %r" % (hdr, names))
                 if len(vals) != len(e): return Outcome("misread", "value", "row %d has %d values" % (i, len(vals)))
                 for k, (x, v) in enumerate(zip(e, vals)):
-                    if not cell_ok(x, v, False): return Outcome("misread", "missing-value" if x["t"] == "miss" or v is None else ("levels" if x["t"] == "nom" and str(v) == x["s"] else "value"), "row %d column %r is %r, the file says %s" % (i, names[k], v, show(x)))
+                    if not cell_ok(x, v, False): return Outcome("misread", "missing-value" if x["t"] == "miss" or v is None else ("levels" if x["t"] == "nom" and str(v) == x["s"] else "value"), "row %d column %r is %r, the file says %s" % (i, names[k], v, show(x)), got=v, exp=x)
                     if not cell_ok(x, g[k], False) or not cell_ok(x, g[names[k]], False): return Outcome("misread", "value-by-key", "row %d column %r read by index / name is %r / %r, the file says %s" % (i, names[k], g[k], g[names[k]], show(x)))
             else:
                 items = dict(g.items())
@@ -337,11 +338,55 @@ def plain_tags(c):
     return frozenset(out)
 
 
+def data_lines(lines):
+    d = [k for k, l in enumerate(lines) if l.strip().lower() == "@data"]
+    return [l for l in lines[d[0] + 1:] if l.strip() and not l.strip().startswith("%")] if d else []
+
+
+def diagnose(reader, c, o, lines):
+    """Name of the known mechanism a failing case shows (a label for the report, never part of the verdict):
+    a case that fits none of them keeps the generic signature built from its departures from the default file."""
+    devs = {d["f"]: txt(d["v"]) for d in c["devs"]}
+    if reader.startswith("arff"):
+        names = [txt(a["name"]) for a in c["attrs"]]
+        levels = [txt(l) for a in c["attrs"] for l in a["levels"]]
+        strs = [txt(x["s"]) for r in c["rows"] for x in r if x["t"] == "s"]
+        data = data_lines(lines)
+        both = lambda ls: any("'" in l for l in ls) and any('"' in l for l in ls)
+        if reader == "arff-sparse" and any("'" in l or '"' in l for l in data):
+            return "arff-sparse:quoted-value-in-row:not-unquoted"
+        if any("\\" in v for v in names + levels):
+            return "arff:backslash-in-attribute-name-or-level:deleted"
+        if "?" in strs + levels and (o.aspect == "missing-value" or o.kind == "raises"):
+            return "arff:quoted-question-mark:confused-with-missing"
+        if reader == "arff-dense":
+            if devs.get("dsep") in (" ,", " , ") and isinstance(o.got, str) and o.got != o.got.rstrip(" \t"):
+                return "arff-dense:blank-before-separator:kept-in-value"
+            if o.aspect == "value" and isinstance(o.got, str) and len(o.got) >= 2 and o.got[0] in "'\"" and o.got[-1] == o.got[0] and both(data):
+                return "arff-dense:both-quote-styles-after-first-row:quotes-kept"
+            if o.aspect == "value" and isinstance(o.got, str) and o.exp and "\\" in o.exp.get("s", "") and o.got == o.exp["s"].replace("\\", "") and both(data):
+                return "arff-dense:backslash-in-value-with-both-quote-styles:deleted"
+            if o.aspect == "missing-marker":
+                if any(",?," in v.replace(" ", "") for v in strs): return "arff-dense:missing-marker:question-mark-between-commas-inside-quotes"
+                if len(names) == 1: return "arff-dense:missing-marker:single-column"
+                if "\t" in devs.get("dsep", ""): return "arff-dense:missing-marker:tab-separated"
+        if reader == "arff-sparse" and o.aspect == "missing-marker" and (devs.get("bpad") == "inner" or devs.get("dsep") == " , " or devs.get("isep") == "\t"):
+            return "arff-sparse:missing-marker:blank-or-tab-next-to-question-mark"
+    if reader == "csv" and any(l != l.strip() for l in lines):
+        return "csv:blank-at-line-edge:stripped"
+    if reader in ("libsvm", "manik") and devs.get("sep") == "\t" and o.aspect == "row-count":
+        return "libsvm-manik:tab-separated:rows-skipped"
+    return None
+
+
 def report(ctx, failures):
     """failures: [(reader, outcome kind+aspect, tags, what, replay)] -> signatures by smallest failing tag subset."""
     by = {}
-    for reader, kind, tags, what, rep in failures: by.setdefault((reader, kind), set()).add(tags)
+    for reader, kind, tags, what, rep in failures:
+        if not isinstance(tags, str): by.setdefault((reader, kind), set()).add(tags)
     for reader, kind, tags, what, rep in sorted(failures, key=lambda f: (f[0], f[1], len(f[2]), sorted(f[2]))):
+        if isinstance(tags, str):
+            ctx.violation(tags, what, rep); continue
         cands = [t for t in by[(reader, kind)] if t <= tags]
         cause = min(cands, key=lambda t: (len(t), sorted(t)))
         sig = "%s:%s:%s" % (reader, kind, " + ".join(sorted(cause)) or "default-file")
@@ -370,7 +415,7 @@ def run_tables(ctx, rng):
         if o.kind == "raises" and not c["common"]: stats["rejected"] += 1; return False
         kind = "common-dialect-rejected" if o.kind == "raises" else "misread-" + o.aspect
         what = "%s: %s%s | file: %r" % (reader, "a file in the common dialect was rejected: " if o.kind == "raises" else "silently misread: ", o.what, lines)
-        failures.append((reader, kind, tags, what, dict(lines=lines, case={k: v for k, v in c.items() if k != "lines"})))
+        failures.append((reader, kind, diagnose(reader, c, o, lines) or tags, what, dict(lines=lines, case={k: v for k, v in c.items() if k != "lines"})))
         return False
     # ---------------- ARFF ----------------
     if ctx.quick:
@@ -378,7 +423,7 @@ def run_tables(ctx, rng):
                  ("k1", {'Shapes = {"nsc"}': 'Shapes = {"sc", "cns", "dn", "s", "ssn"}', "Rich = FALSE": "Rich = TRUE"})]
     else:
         aruns = [("k2rich", {"K = 1": "K = 2", 'Shapes = {"nsc"}': 'Shapes = {"nsc", "sc", "cns", "dn", "s", "nnc", "ssn"}', "Rich = FALSE": "Rich = TRUE"}),
-                 ("k3", {"K = 1": "K = 3", 'Shapes = {"nsc"}': 'Shapes = {"sc"}'})]
+                 ("k3", {"K = 1": "K = 3", 'Shapes = {"nsc"}': 'Shapes = {"sc"}', "SparseSet = {FALSE, TRUE}": "SparseSet = {FALSE}"})]
     for name, sub in aruns:
         cases = tlc_cases("arff", name, sub)
         ctx.sample(dict(lines=cases[len(cases) // 3]["lines"], rows=cases[len(cases) // 3]["rows"], common=cases[len(cases) // 3]["common"]), limit=4)
@@ -528,7 +573,11 @@ def pipeline(ctx, rng, okcases, failures):
 
 
 def run(ctx):
+    import sys
     rng = random.Random(ctx.seed)
+    # LazyDense._enc_all (rows.py 54-61) has a bare `except:` around its yield: a half-consumed row that is
+    # garbage-collected prints "generator ignored GeneratorExit" to stderr; harmless noise, not C12's subject
+    sys.unraisablehook = lambda *a: None
     run_delim(ctx, rng)
     run_tables(ctx, rng)
     ctx.assumptions += [
